@@ -76,6 +76,18 @@ CLAIMS["C02"] = dict(
     technique=KANI + "; real poulpy-core operations on a marker module, column-wise specification equivalent to the phase statement by linearity",
     ref="DESIGN.md §5 C02",
 )
+CLAIMS["C16"] = dict(
+    text="CKKS metadata algebra and error paths: the crate's budget/alignment helpers are decided on arbitrary metadata (Ok exactly under the documented condition with the documented value, Err otherwise, no overflow); the product-free operations (add/sub ct-ct, negate, multiply/divide by 2^bits in both forms) run through the public traits on a marker module with symbolic normalised limbs, exact-size symbolic scratch, concrete operand metadata grids (aligned, unequal budgets, destinations of fewer limbs) and bits from {small values, 2^64-2, 2^64-1}: never panic, Err exactly when the remaining budget cannot absorb the request, on Ok the result metadata follows the documented algebra with log_delta+log_budget within the stored precision, and for add/sub the result value equals a +- b at the result's precision.",
+    note="Calibrated allow-list of shapes (several add/sub shapes with unequal budgets exceed the memory cap and are not claimed). Slot encoding/decoding, the multiplication family, rotate/conjugate (key-switching through the DFT) and random programs are outside. anyhow's fmt/backtrace construction is stubbed.",
+    technique=KANI + "; public CKKS traits on a marker module, metadata helpers on symbolic metadata",
+    ref="DESIGN.md §5 C16",
+)
+CLAIMS["C03"] = dict(
+    text="Galois-element arithmetic only: galois_element is decided to be the signed multiplicative map g -> sign(g)*5^|g| mod 2N (ge(0)=1, ge(1)=5, ge(g1)ge(g2)=ge(g1+g2) for all exponents below 2^12, ge(-g)=-ge(g), odd residues in range) for log N <= 12, and galois_element_inv to be the inverse in (Z/2N)* with the same sign convention for every odd element, log N <= 16.",
+    note="NARROW: everything else the property states (gadget products of GLWE/GGLWE/GGSW/LWE key-switching, automorphism/trace/packing values, noise bounds) runs through DFT products that this family of technique could not encode within reach (DESIGN §2.4); none of it is claimed.",
+    technique=KANI + " (integer arithmetic of module.rs only)",
+    ref="DESIGN.md §5 C03",
+)
 NA = {}
 DEFAULT_NA = "not yet implemented in this revision (work in progress)"
 
